@@ -12,7 +12,7 @@ RULE = ("every sequence of public construction operations (new, add child, mark 
 def run(tier, rep):
     rc.render_pools(rep, "C16", tier, ["plain"], rc.C16_TAGS, opkinds=("add", "optional", "remove", "merge", "multiple", "text"),
                     maxops=4 if tier == "quick" else 5, maxdepth=1, limit=3000 if tier == "quick" else 60000, api_trace=True)
-    rc.render_pools(rep, "C16", tier, ["kwsibling", "suffixlit"], rc.C16_TAGS, opkinds=("add", "optional", "text"),
+    rc.render_pools(rep, "C16", tier, ["kwsibling", "suffixlit", "offsets"], rc.C16_TAGS, opkinds=("add", "optional", "text"),
                     maxops=4, maxdepth=0, limit=1500 if tier == "quick" else 60000)
     rc.random_trees(rep, "C16", tier, rc.C16_TAGS, ops=60, api_trace=True, n=300 if tier == "quick" else 3000)
     rep.add(distinct_nontrivial=rep.coverage.get("trees_rendered", 0), rule=RULE, exhaustive=True,
